@@ -20,5 +20,8 @@ CHECKS = {
  'C07': {'text': 'Generated search over bitmap constructs (222/223/224/225/232 blocks, 236/237/235 chains, all bit patterns as data, listed / replicated / delayed bitmaps) and associated fields, compressed or not: bitmap_links and the full nested-JSON attribute structure are compared with the reference back-reference model and expected hierarchical view.',
          'note': 'Trusts the back-reference model of refbufr.walker and refbufr.nested; ambiguous combinations (DESIGN 10-2) not generated.',
          'technique': 'property-based testing (Hypothesis) against an independent reference model of bitmap back-references and attribute wiring'},
+ 'C15': {'text': 'Complete enumeration of every string of length 0..5 (quick) / 0..6 (thorough, 3.3M) over the 12-symbol alphabet of the property, each decided by an independent recogniser/parser of the documented grammar (accept <=> derivable, rejection only by PathExprParsingError, components and slices as the grammar dictates, print/parse round trip, no dependence on earlier parses by the same parser object); plus thousands of grammar-derived long expressions and 1-2 character mutants; thorough adds 4 atheris campaigns (2 from an empty corpus) with the same oracle inside the fuzz target.',
+         'note': 'Exhaustive only for the bounded string space; IDs outside [0-9A-Z] and integers only int() accepts are unspecified (either outcome tolerated).  Slices compared by effect on lists of length 0..12.',
+         'technique': 'exhaustive small-scope enumeration + grammar-based property testing (Hypothesis) + coverage-guided fuzzing (atheris) against a reference recogniser/parser'},
 }
 NOT_YET = {}
